@@ -325,20 +325,26 @@ func RacePass(rep *Report, id, keyPrefix string) {
 	out := stderr.String()
 	blocks := strings.Split(out, "WARNING: DATA RACE")
 	seen := map[string]bool{}
+	var other []string
 	for _, b := range blocks[1:] {
-		// the two access stacks: take the first function line after "Read at"/"Write at"/"Previous ..."
+		// the two access stacks: the first frame that is not the Go runtime names
+		// the site; a runtime map frame on top makes the race crash-grade (the
+		// runtime turns concurrent map access into a fatal error)
 		var funcs []string
+		mapRace := false
 		lines := strings.Split(b, "\n")
 		for i, l := range lines {
 			t := strings.TrimSpace(l)
 			if strings.HasPrefix(t, "Read at") || strings.HasPrefix(t, "Write at") || strings.HasPrefix(t, "Previous read at") || strings.HasPrefix(t, "Previous write at") {
-				// first frame that is not the Go runtime
 				for j := i + 1; j < len(lines); j += 2 {
 					fn := strings.TrimSpace(lines[j])
 					if fn == "" {
 						break
 					}
 					if strings.HasPrefix(fn, "runtime.") {
+						if strings.HasPrefix(fn, "runtime.map") {
+							mapRace = true
+						}
 						continue
 					}
 					fn = strings.TrimSuffix(fn, "()")
@@ -351,7 +357,16 @@ func RacePass(rep *Report, id, keyPrefix string) {
 			}
 		}
 		sort.Strings(funcs)
-		k := keyPrefix + ".race." + strings.Join(funcs, "|")
+		name := strings.Join(funcs, "|")
+		if !mapRace {
+			// not a crash by itself (word-sized field or pointer): recorded, not judged
+			if !seen["o:"+name] {
+				seen["o:"+name] = true
+				other = append(other, name)
+			}
+			continue
+		}
+		k := keyPrefix + ".race." + name
 		if seen[k] {
 			continue
 		}
@@ -359,9 +374,10 @@ func RacePass(rep *Report, id, keyPrefix string) {
 		if len(b) > 3000 {
 			b = b[:3000]
 		}
-		rep.Violation(Violation{Key: k, Summary: "data race between " + strings.Join(funcs, " and ") + " in the free-running pass (a concurrent map access of this kind is a fatal runtime error when it happens)",
+		rep.Violation(Violation{Key: k, Summary: "concurrent map access between " + strings.Join(funcs, " and ") + " in the free-running pass (a fatal runtime error when it happens)",
 			Case: map[string]interface{}{"part": "race", "report": b}})
 	}
+	sort.Strings(other)
 	if err != nil && len(blocks) == 1 {
 		tail := out
 		if len(tail) > 2000 {
@@ -374,7 +390,7 @@ func RacePass(rep *Report, id, keyPrefix string) {
 			rep.Set("race_pass_error", err.Error()+": "+tail)
 		}
 	}
-	rep.Set("race_pass", map[string]interface{}{"ran": true, "distinct_races": len(seen)})
+	rep.Set("race_pass", map[string]interface{}{"ran": true, "crash_grade_map_races": len(seen) - len(other), "other_races_observed_not_judged": other})
 }
 
 func firstLineOf(s string, markers ...string) string {
